@@ -18,7 +18,7 @@ CLAIMS = {
                 text="Kernel level. For 21 assignment kernels (assign/matrix.rs) and 20 op-assignment kernels (machines/math/src/op_assign, 5 per operator) and EVERY matrix size: with valid (and, for vector sources and op-assignment, distinct) indices exactly the addressed elements receive the value / op(old, source), every other element and the shape are unchanged (.value with frame); returns normally => every addressed position existed (.reject); mask length (.masklen, where the dispatch arm does not guard it); failure leaves the sink unchanged (.atomic: violated by every index-vector kernel, known finding). Kani twins at fixed shapes (bounded) cover the iterator kernels outside the transcription; subscript_ref() push order by a syntactic pass.",
                 note="Assumed: matmodel.rs as for C03; element operation of op-assignment = one uninterpreted total function per operator (overflow / division by zero of the element type outside the model); typed dispatch arms reject mismatched masks for the 2-D mask forms (read off the arms, confirmed natively). Not decided: 2-D vector sources, read-back composition with C03, kind mismatch, dispatch arms.", ref="4 C04"),
     "C05": dict(cat="proof", tech="Verus on the real SymbolTable methods and on the name-guard fragments of variable_define / variable_assign; Kani on detach_variable_value",
-                text="SymbolTable::{get,get_mutable,contains,insert} proved against a map view with the invariant 'mutable binding => same cell as the binding'; the guards of variable_define (existing name => error) and variable_assign (undefined / immutable => the right error, before anything is written) proved on the verbatim statements; storage separation of `y := x` checked on the real detach_variable_value (known finding). The history clause is a lemma over these contracts.",
+                text="SymbolTable::{get,get_mutable,contains,insert} proved against a map view with the invariant 'mutable binding => same cell as the binding'; the guards of variable_define (existing name => error) and variable_assign (undefined / immutable => the right error, before anything is written) proved on the verbatim statements; storage separation of `y := x` checked on the real detach_variable_value; failure atomicity of indexed assignment re-checked on two representative kernels (the in-place kernels are NOT atomic: known finding shared with C04). The history clause is a lemma over these contracts.",
                 note="Assumed: Value/Ref stand-ins (a cell is an identity); statements after the guards (expression evaluation, kernels) are outside; 'never aborts the host' (catch_unwind) not decided.", ref="4 C05"),
     "C06": dict(cat="proof", tech="Verus on CompileCtx + compile_*op! emitters; Kani on constant codecs; syntactic emitter/factory order pass",
                 text="Partial, modular: the real CompileCtx register allocator and emit_* methods and the five emitter macros (instantiated mechanically) are proved to emit ConstLoad per operand then the op with registers in (out, arg1, arg2, ..) order; ConstElem write_le/from_le round trips proved for every scalar kind; symbol-section count round trip proved for every n; an anchor pass checks that every struct template passes its fields to the emitter in the order its factory reads them. Whole-program equivalence is only the (unchecked) composition.",
